@@ -366,7 +366,8 @@ def alpha(fn):
 
 
 def is_delegate(async_fn, sync_name):
-    body = [s for s in async_fn.body if not (isinstance(s, ast.Expr) and isinstance(s.value, ast.Constant))]
+    from .frame import significant_body
+    body = significant_body(async_fn)
     if len(body) != 1 or not isinstance(body[0], ast.Return) or not isinstance(body[0].value, ast.Call):
         return False
     call = body[0].value
@@ -385,6 +386,10 @@ def is_delegate(async_fn, sync_name):
 def normalise(fn, used):
     fn = copy.deepcopy(fn)
     fn = Erase().visit(fn)
+    # dead stores of constants (trace markers) and docstrings take no part in the comparison
+    from .frame import significant_body
+    for sub in [n for n in ast.walk(fn) if isinstance(n, (ast.FunctionDef, ast.AsyncFunctionDef))]:
+        sub.body = significant_body(sub) or [ast.Pass()]
     if fn.name.endswith("_async"):
         fn.name = fn.name[:-6]
     used.add("erase")
@@ -433,7 +438,8 @@ def check_is_undefined(repo):
     fn = m.functions.get("is_undefined") if m else None
     if fn is None:
         return False
-    body = [s for s in fn.body if not (isinstance(s, ast.Expr) and isinstance(s.value, ast.Constant))]
+    from .frame import significant_body
+    body = significant_body(fn)
     return len(body) == 1 and ast.unparse(body[0]) == "return isinstance(obj, Undefined)"
 
 
